@@ -1,5 +1,5 @@
 //@unit handler_setup
-//@props C09 C05 C04
+//@props C09 C05 C04 C01 C03
 // The SetupChannel arm of the protocol handler (vls-protocol-signer/src/handler.rs, ChannelHandler::do_handle), lifted
 // verbatim into a function by rewrite R30 (the block of one match arm; signature from this template).  This is where the
 // negotiated channel parameters of the wire message become the ChannelSetup that every later check reads: the contest
@@ -20,6 +20,9 @@ use vstd::std_specs::cmp::OrdSpec;
 //@map /points\.(revocation|delayed_payment|htlc)\.into\(\)/ => vx_basepoint_of(&points.\1)
 //@map /points\.payment\.into\(\)/ => vx_pubkey_of(&points.payment)
 //@map /\bTxid\b/ => Txid
+//@map /Arc<Node>/ => VxNodeH
+//@map /Arc<dyn Approve>/ => VxApprover
+//@map /Arc::clone\(&self\.node\)/ => self.node.clone()
 verus! {
 
 //@@TAGS
@@ -28,7 +31,8 @@ verus! {
 #[verifier::external_body] pub fn vx_setup_channel_reply() -> VxReply { unimplemented!() }
 // vls-protocol model types: byte strings and 33-byte keys as they come off the wire
 #[verifier::external_body] pub struct Octets { _p: u8 }
-#[verifier::external_body] pub struct PubKey { _p: u8 }
+pub struct PubKey(pub [u8; 33]);
+#[verifier::external_body] pub struct VxApprover { _p: u8 }
 impl Octets {
     pub uninterp spec fn bytes(&self) -> Seq<u8>;
     #[verifier::external_body] pub fn is_empty(&self) -> (r: bool) ensures r == (self.bytes().len() == 0) { unimplemented!() }
@@ -61,8 +65,15 @@ impl VxNodeH {
         ensures r.is_ok() ==> id.is_none() && node_setup_channel_called(*self, id0, setup, *holder_shutdown_key_path)
     { unimplemented!() }
 }
-pub struct ChannelHandler { pub node: VxNodeH, pub channel_id: ChannelId, pub rest: VxHandlerRest }
-#[verifier::external_body] pub struct VxHandlerRest { _p: u8 }
+impl Clone for VxNodeH { #[verifier::external_body] fn clone(&self) -> (r: Self) ensures r == *self { unimplemented!() } }
+// ChannelId::new_from_peer_id_and_oid (vls-core; the id round trip oid(new_from_peer_id_and_oid(p, x)) == x is a Kani proof, C15)
+pub uninterp spec fn channel_id_of(peer_id: [u8; 33], oid: u64) -> ChannelId;
+impl ChannelId {
+    #[verifier::external_body]
+    pub fn new_from_peer_id_and_oid(peer_id: &[u8; 33], oid: u64) -> (r: ChannelId) ensures r == channel_id_of(*peer_id, oid) { unimplemented!() }
+}
+//@type vls-protocol-signer/src/handler.rs :: RootHandler
+//@type vls-protocol-signer/src/handler.rs :: ChannelHandler
 
 // the setup a SetupChannel message denotes (written from the meaning of the message fields, see the header)
 pub open spec fn setup_of_message(m: SetupChannel) -> ChannelSetup {
@@ -84,6 +95,20 @@ pub open spec fn setup_of_message(m: SetupChannel) -> ChannelSetup {
         counterparty_shutdown_script: if m.remote_shutdown_script.bytes().len() == 0 { None } else { Some(script_of_bytes(m.remote_shutdown_script.bytes())) },
         commitment_type: commitment_type_of(m.channel_type.bytes()),
     }
+}
+
+impl RootHandler {
+//@fn vls-protocol-signer/src/handler.rs :: impl RootHandler :: channel_id props=C09
+    ensures r == channel_id_of(peer_id.0, dbid),
+//@end
+
+//@fn vls-protocol-signer/src/handler.rs :: impl Handler for RootHandler :: for_new_client props=C09,C01,C03
+    ensures
+        // the per-channel handler of a client acts on the channel of THIS peer and THIS database id (every later request of
+        // the client - sweeps, commitments, revocations - is looked up under this id), on the same node, under the same protocol
+        r.channel_id == channel_id_of(peer_id.0, dbid) && r.dbid == dbid && r.peer_id == peer_id.0,     //[C09.handler.client-acts-on-the-channel-of-its-dbid] [C01.handler.client-acts-on-the-channel-of-its-dbid] [C03.handler.client-acts-on-the-channel-of-its-dbid]
+        r.node == self.node && r.protocol_version == self.protocol_version && r.id == client_id,
+//@end
 }
 
 impl ChannelHandler {
